@@ -62,3 +62,52 @@ def apply_rules(text, log, where, extra=()):
             return new
         text = re.sub(pat, sub, text)
     return text
+
+def _continue_tail(block_inner):
+    """if the last top-level statement of a block is `continue;` return the block text without it, else None"""
+    st = L.split_stmts(block_inner)
+    if not st: return None
+    a, z = st[-1]
+    if block_inner[a:z].strip() != 'continue;': return None
+    return block_inner[:a].rstrip()
+
+def _desugar_body(inner, indent):
+    """R14 on the inner text of one `for` body: `if C { S; continue; } REST`  =>  `if C { S; } else { REST }` (recursively on REST)."""
+    st = L.split_stmts(inner)
+    for idx, (a, z) in enumerate(st):
+        s = inner[a:z]
+        if not s.startswith('if '): continue
+        bo = L.body_open(s, 0)
+        bc = L.match_close(s, bo)
+        if s[bc + 1:].strip(): continue            # has an else branch (or a trailing `;`): not the shape R14 handles
+        kept = _continue_tail(s[bo + 1:bc])
+        if kept is None: continue
+        rest = inner[z:]
+        rest2, n = _desugar_body(rest, indent)
+        if not rest2.strip():
+            new = inner[:a] + s[:bo] + '{' + kept + ('\n' + indent if kept.strip() else '') + '}' + rest2
+        else:
+            new = inner[:a] + s[:bo] + '{' + kept + ('\n' + indent if kept.strip() else '') + '} else {' + rest2.rstrip() + '\n' + indent + '}\n'
+        return new, n + 1
+    return inner, 0
+
+def desugar_continue(text, log, where):
+    """R14: Verus rejects `continue` inside `for`.  A top-level `if C { ..; continue; }` (no else) of a for-body followed by the rest of
+    the body is rewritten to `if C { .. } else { rest }` -- the textbook structured equivalent; nothing else in the loop is touched.
+    A `continue` in any other position is left alone (Verus then reports it: UNDECIDED, not an alarm)."""
+    total = 0
+    while True:
+        changed = False
+        for (fi, bo, bc) in L.find_for_loops(text):
+            inner = text[bo + 1:bc]
+            if 'continue' not in inner: continue
+            ls = text.rfind('\n', 0, fi) + 1
+            indent = text[ls:fi] + '    '
+            new, n = _desugar_body(inner, indent)
+            if n:
+                text = text[:bo + 1] + new.rstrip() + '\n' + text[ls:fi] + text[bc:]
+                total += n; changed = True
+                break
+        if not changed: break
+    if total: log.add('R14', where, '%d `if .. { ..; continue; }` in for-loops' % total, 'if .. { .. } else { rest of the loop body }')
+    return text
